@@ -12,7 +12,7 @@ from ..core import Outcome, is_err, eao_call
 
 ID = "C17"
 LEVEL = "exploration"
-EXAMPLES = {"quick": 500, "thorough": 10000}
+EXAMPLES = {"quick": 1000, "thorough": 20000}
 RULE = ("Generated: LP portfolios (contracts with spread / takes / time-varying capacity, storages with efficiency, "
         "inflow and costs (a quarter at a coarser asset frequency), transports in both directions with costs, multi-commodity contracts, order books "
         "(orders inside, outside and across the horizon, half of them with orders reaching from the present into the future), market pairs; 1-2 nodes; 3-10 steps x freq x unit x "
@@ -43,6 +43,8 @@ def _strategy(draw):
     for i in range(draw(st.integers(1, 3))):
         cls = draw(st.sampled_from(["simple", "storage", "storage", "contract", "transport", "transport", "multi",
                                     "orderbook", "orderbook"]))
+        if i == 0 and draw(st.integers(0, 3)) > 0:
+            cls = "storage"      # something that couples present and future in most cases (else the stages decouple)
         a = gen.draw_asset(draw, cx, cls, "a%d" % i)
         if cls == "orderbook":
             a["wacc"] = 0.0
